@@ -110,10 +110,12 @@ def plan(h, sessions):
                 st["wait_ms"] = min(max(e["slice_w"], e["slice_b"]), 6000) + 4000
 
 
-def run_sessions(binary, sessions, conc, trace_paths=None):
+def run_sessions(binary, sessions, conc, trace_paths=None, pin=False):
     def one(i):
         tp = trace_paths[i] if trace_paths else None
-        return U.run_script(binary, sessions[i], tp)
+        # schedule perturbation: both threads of the engine pinned to ONE core, shared with the other sessions pinned there
+        prefix = ["taskset", "-c", str(i % 2)] if (pin and shutil.which("taskset")) else None
+        return U.run_script(binary, sessions[i], tp, prefix=prefix)
     with ThreadPoolExecutor(max_workers=conc) as ex:
         return list(ex.map(one, range(len(sessions))))
 
@@ -266,6 +268,12 @@ def c03(tier, replay):
     logs = run_sessions(binary, sessions, 8)
     sample_session(run, sessions[-1], logs[-1])
     totals = validate(run, "C03", "sessions", logs, scripts=sessions, binary=binary)
+    # the same kind of sessions with the engine's two threads forced onto one shared core (other interleavings of the
+    # polling loop and the search thread than an idle 16-core machine produces)
+    pinned = [s_ for s_ in sessions if any(st["do"] == "go" for st in s_)][: (30 if q else 200)]
+    plogs = run_sessions(binary, pinned, 8, pin=True)
+    ptot = validate(run, "C03", "pinned", plogs, scripts=pinned, binary=binary)
+    run.cov["sessions_with_threads_pinned_to_one_core"] = len(pinned)
     if totals.get("bestmoves", 0) < 20:
         raise ToolError("coverage hole: fewer than 20 bestmove lines observed")
     thread_events(run, "C03", tier)
